@@ -53,7 +53,9 @@ pub fn prepare_call(
 		bail!(TooManyArgsFunctionHas(params.len(), params))
 	}
 
-	let expected_defaults = params.len() - unnamed - named.len();
+	// More named arguments than remaining parameters is reported by the loop below
+	// (unknown parameter or parameter bound twice), it should not underflow here
+	let expected_defaults = params.len().saturating_sub(unnamed + named.len());
 	let mut ops = PreparedCall {
 		named: Vec::with_capacity(named.len()),
 		defaults: Vec::with_capacity(expected_defaults),
